@@ -313,6 +313,32 @@ def getitem(I, a, idx):
     if isinstance(idx, SArr) and idx.kind == 'i' and a.ndim == 1 and idx.ndim == 1:
         src = a
         return SArr(idx.shape, lambda q: src.get(idx.get(q[0])), a.kind, tag='take')
+    if isinstance(idx, SArr) and idx.kind == 'i' and idx.ndim == 1:
+        idx = (idx,)
+    if isinstance(idx, tuple):
+        items = norm_index(a, idx)
+        arrs = [k for k, x in enumerate(items) if isinstance(x, SArr)]
+        if len(arrs) == 1 and items[arrs[0]].kind == 'i' and items[arrs[0]].ndim == 1 and all(
+                isinstance(x, slice) for k, x in enumerate(items) if k != arrs[0]) and len(items) == a.ndim:
+            # ONE index array among slices: numpy keeps the axis in place, out[.., i, ..] = a[.., idx[i], ..]
+            I.ctx.trust('numpy indexing with one 1-D integer array among slices: the axis stays in place, negative entries count from the end, '
+                        'IndexError if an entry is out of range')
+            ax = arrs[0]
+            ia = items[ax]
+            n = a.shape[ax]
+            oob = SArr(ia.shape, lambda q: sym.Or(sym.lt(ia.get(q), sym.neg(n)), sym.ge(ia.get(q), n)), 'b', tag='oob')
+            if I.ctx.branch(reduce_bool(I, oob, 'any')):
+                raise PyExc('IndexError')
+            # the other axes first (a view), then the gather (values read now: a fresh array)
+            rest = tuple(slice(None) if k == ax else x for k, x in enumerate(items))
+            v = basic_index(I, a, rest)
+            snap, vmap = v.buf.get, v.imap
+            norm = lambda x: sym.ite(sym.lt(x, 0), sym.add(x, n), x)
+            shp = tuple(ia.shape[0] if k == ax else sdim for k, sdim in enumerate(v.shape))
+            r = SArr(shp, lambda q: snap(vmap(tuple(norm(ia.get(q[ax])) if k == ax else x for k, x in enumerate(q)))), a.kind, tag='take-axis')
+            if a.mask is not None:
+                raise Unsupported('index array on a masked array')
+            return r
     raise Unsupported('fancy indexing')
 
 
@@ -983,6 +1009,19 @@ def _diff(I, args, kw):
     return SArr(shp, lambda q: sym.sub(a.get(up(q)), a.get(q)), a.kind, tag='diff')
 
 
+@_np('sum')
+def _sum(I, args, kw):
+    x = args[0]
+    if isinstance(x, (list, tuple)) and not any(isinstance(v, SArr) for v in x):
+        r = 0
+        for v in x:
+            r = sym.add(r, sym.ite(v, 1, 0) if sym.is_boolkind(v) else v)
+        return r
+    if isinstance(x, SArr) and not kw and len(args) == 1:
+        return sum_of(I, x)
+    raise Unsupported('numpy.sum of %s' % type(x).__name__)
+
+
 @_np('cumsum')
 def _cumsum(I, args, kw):
     """numpy.cumsum along one axis: a fresh array c with c[..0..] = a[..0..] and c[..i..] = c[..i-1..] + a[..i..]"""
@@ -1013,9 +1052,65 @@ def _append(I, args, kw):
     return concat1(I, [args[0], args[1]])
 
 
+def concat_axis(I, parts, axis):
+    """np.concatenate / np.ma.concatenate of n-d pieces along one axis: pieces laid end to end in a fresh array"""
+    parts = [_as_arr(I, p) for p in parts]
+    nd = parts[0].ndim
+    if any(p.ndim != nd for p in parts):
+        raise PyExc('ValueError')
+    if is_sym(axis):
+        raise Unsupported('symbolic axis')
+    ax = axis % nd
+    if nd == 1:
+        return concat1(I, parts)
+    I.ctx.trust('numpy.concatenate/append: pieces laid end to end in a fresh array')
+    for p in parts[1:]:
+        for k in range(nd):
+            if k != ax and I.ctx.branch(sym.ne(p.shape[k], parts[0].shape[k])):
+                raise PyExc('ValueError')
+    offs, total = [], 0
+    for p in parts:
+        offs.append(total)
+        total = sym.add(total, p.shape[ax])
+    snaps = [(p.buf.get, p.imap) for p in parts]       # content at the time of the call (fresh result buffer)
+
+    def get(q):
+        i = q[ax]
+        sub = lambda o: tuple(sym.sub(x, o) if k == ax else x for k, x in enumerate(q))
+        g, m = snaps[-1]
+        r = g(m(sub(offs[-1])))
+        for (g, m), o, p in list(zip(snaps, offs, parts))[-2::-1]:
+            r = _ite(sym.lt(i, sym.add(o, p.shape[ax])), g(m(sub(o))), r)
+        return r
+    kinds = [p.kind for p in parts]
+    kind = 'O' if 'O' in kinds else ('f' if 'f' in kinds else ('i' if 'i' in kinds else 'b'))
+    shp = tuple(total if k == ax else s for k, s in enumerate(parts[0].shape))
+    r = SArr(shp, get, kind, tag='concat')
+    if any(p.mask is not None for p in parts):
+        ms = [p.mask if p.mask is not None else SArr(p.shape, lambda q: False, 'b', tag='nomask') for p in parts]
+        r.mask = concat_axis(I, ms, ax)
+    return r
+
+
 @_np('concatenate')
 def _concatenate(I, args, kw):
-    return concat1(I, list(args[0]))
+    ax = kw.get('axis', args[1] if len(args) > 1 else 0)
+    return concat_axis(I, list(args[0]), ax)
+
+
+models._REG['numpy.ma.concatenate'] = Builtin('numpy.ma.concatenate', _concatenate, T_NUMPY)
+
+
+@_np('array_equal')
+def _array_equal(I, args, kw):
+    a, b = _as_arr(I, args[0]), _as_arr(I, args[1])
+    if a.ndim != b.ndim:
+        return False
+    same = sym.And(*[sym.eq(x, y) for x, y in zip(a.shape, b.shape)])
+    eqs = SArr(a.shape, lambda q: sym.eq(a.get(q), b.get(q)), 'b', tag='eq')
+    if a.ndim == 0:
+        return sym.And(same, eqs.get(()))
+    return sym.And(same, reduce_bool(I, eqs, 'all'))
 
 
 @_np('interp')
